@@ -1,6 +1,7 @@
 import TenpyModel.C11.Proofs
 import TenpyModel.C11.SumProofs
 import TenpyModel.C11.UIProofs
+import TenpyModel.C11.PlusIdProofs
 /-!
 # C11 — MPO algebra equals operator algebra: property theorems
 
@@ -110,6 +111,25 @@ theorem C11_UI_first_order {κ α : Type} [DecidableEq κ] [CommSemiring α] (lk
     (coeff (pathsFrom lk (uiLayers lk rk as) lk) t).snd = coeff (pathsFrom rk as lk) t :=
   (ui_first_order lk rk hlr as h).2.1 t
 
+/- **`MPO.plus_identity(alpha, beta, sites)`**, full statement: for a contiguous list `sites` of `N`
+sites, `tb^N = beta`, `N·ta = alpha`: `denote (plusIdentity m beta tb ta sites) ≈ alpha·1 + beta·denote m`.
+Proved below for `N = 1` (the default `sites=[0]`, or any single site) with symbolic virtual indices;
+for `N ≥ 2` the exponents `b^counter`, `b^(N-counter+1)` of the code are compared exactly with the
+implementation and the identity `denote = alpha + beta·denote` is evaluated by the driver on every
+generated case (`plus_identity_ok`). -/
+
+/-- **`plus_identity` on one site.**  Multiplying every entry of one site by `beta` and adding `alpha·Id`
+to its `IdL → IdR` entry denotes `beta·H + alpha·1` — for every chain length and position of the site,
+every MPO in standard form with identity entries `IdL → IdL`, `IdR → IdR` (via the edge-addition lemma
+`coeff_pathsFrom_add_edge`: a new edge adds (paths to its source) ⊗ edge ⊗ (paths from its target)). -/
+theorem C11_plus_identity_partial {κ α : Type} [DecidableEq κ] [CommSemiring α] (lk rk : κ) (hlr : lk ≠ rk)
+    (alpha beta : α) (pre : List (List (Edge κ α))) (la : List (Edge κ α)) (post : List (List (Edge κ α)))
+    (hpre : ∀ l ∈ pre, StdId lk rk l) (hpost : ∀ l ∈ post, StdId lk rk l) (t : OpStr) :
+    coeff (pathsFrom rk (pre ++ plusIdLayer lk rk alpha beta la :: post) lk) t
+      = beta * coeff (pathsFrom rk (pre ++ la :: post) lk) t
+        + coeff [(idStr (pre.length + 1 + post.length), alpha)] t :=
+  plus_identity_single lk rk hlr alpha beta pre la post hpre hpost t
+
 /-! ## non-vacuity: concrete instances run through the executable model -/
 
 section examples
@@ -131,5 +151,17 @@ example : pathsFrom (α := Int) SK.r (sumLayers 0 9
       [[⟨0, 0, "Id", 1⟩, ⟨0, 9, "A", 2⟩, ⟨9, 9, "Id", 1⟩], [⟨0, 0, "Id", 1⟩, ⟨0, 9, "B", 3⟩, ⟨9, 9, "Id", 1⟩]]
       [[⟨0, 0, "Id", 1⟩, ⟨0, 5, "C", 1⟩, ⟨9, 9, "Id", 1⟩], [⟨0, 0, "Id", 1⟩, ⟨5, 9, "D", 5⟩, ⟨9, 9, "Id", 1⟩]]) SK.l
     = [(["Id", "B"], 3), (["A", "Id"], 2), (["C", "D"], 5)] := by decide
+
+/-- `1·1 + 2·H` for `H = Id ⊗ Z + X ⊗ Id` (site 0 modified) -/
+example : pathsFrom (α := Int) 9 ([] ++ plusIdLayer 0 9 1 2
+      [⟨0, 0, "Id", 1⟩, ⟨0, 9, "X", 1⟩, ⟨9, 9, "Id", 1⟩] :: [[⟨0, 0, "Id", 1⟩, ⟨0, 9, "Z", 1⟩, ⟨9, 9, "Id", 1⟩]]) 0
+    = [(["Id", "Z"], 2), (["X", "Id"], 2), (["Id", "Id"], 1)] := by decide
+
+/-- first order of `W_I` for the same `H`, over the dual numbers: `(fst, snd)` of each coefficient -/
+example : (pathsFrom 0 (uiLayers (α := Int) 0 9
+      [[⟨0, 0, "Id", 1⟩, ⟨0, 9, "X", 1⟩, ⟨9, 9, "Id", 1⟩], [⟨0, 0, "Id", 1⟩, ⟨0, 9, "Z", 1⟩, ⟨9, 9, "Id", 1⟩]]) 0).map
+      (fun p => (p.1, p.2.fst, p.2.snd))
+    = [(["Id", "Id"], 1, 0), (["Id", "Z"], 0, 1), (["X", "Id"], 0, 1), (["X", "Z"], 0, 0)] := by
+  decide +kernel
 
 end examples
